@@ -3,14 +3,21 @@ from props import common, generic, tree_common as tc
 
 
 def run(rep):
+    common.load_contracts()
+    from contracts.sql import ANCESTRY_CASES
     return generic.run_generic(
-        rep, tc.TREE_FUNCS + tc.NAV_FUNCS + tc.OFFSET_FUNCS + tc.MATCHER_FUNCS + tc.PASS_FUNCS + tc.JOINER_FUNCS,
+        rep, tc.TREE_FUNCS + tc.NAV_FUNCS + tc.OFFSET_FUNCS + list(ANCESTRY_CASES) + tc.MATCHER_FUNCS + tc.PASS_FUNCS + tc.JOINER_FUNCS,
         structural=[tc.grouping_frame, tc.flatten_and_str, tc.identity_side_conditions],
         assumptions=['Inv (I1-I6, DESIGN 4.2) as a local invariant with ownership = the tree (methodology, DESIGN 3.3)',
-                     '_group_matching (6 classes) and the nine simple passes are under contract: at every group_tokens call '
-                     '0 <= start <= end < len (so the proved group_tokens contract applies) and no exception escapes; the '
-                     'joining driver _group (11 instantiations) is covered by the bounded stand-in only',
-                     'get_token_at_offset / within / has_ancestor / is_child_of: bounded stand-in only'],
+                     '_group_matching (6 classes), the nine simple passes and the joining driver _group with its ten passes '
+                     'are under contract: at every group_tokens call 0 <= start <= end < len (so the proved group_tokens '
+                     'contract applies) and no exception escapes',
+                     'within / has_ancestor / is_child_of are verified against the ancestry chain of a token (abstract '
+                     'sequence ANC of group nodes, nearest first, linked by the parent references that I1 establishes): '
+                     'within(cls) <=> some ancestor is an instance of cls; has_ancestor(o) <=> o is an ancestor (cases: the '
+                     'parent, a farther ancestor, not an ancestor, no parent); is_child_of(o) <=> o is the parent; the walk '
+                     'terminates because the chain is finite (termination itself is not proved)',
+                     'get_token_at_offset: verified against the leaf sequence model of flatten()'],
         trusted=['ownership-based local invariants (methodology)'],
         extra_functions=['sqlparse.engine.grouping.*'])
 
